@@ -10,6 +10,10 @@ REPO = "/repo"
 
 
 FIRST_MISSED = {
+    "C18e": "C18-amp the stored initial_amp is compute_amp_factor(): interpolation adds on the way up and subtracts on the way down (C04-A4 caught it at first sight)",
+    "C19e": "C19-R7 the route-validating simulation visits every hop (no exit from the loop except the iterator running out or an error)",
+    "C20e": "C20-E9 the epoch manager stores its start epoch only when genesis_epoch == start_epoch.start_time",
+    "C20f": "C20-E6 extended to the entry points: no admin assertion / sender comparison in front of the creating arm",
     "C09e": "C09-D7 validate_claimed(..)? dominates every write of whale_lair bond/unbond, applied to the sender, rejecting a non-empty claimable list",
     "C09f": "C09-D8 the v0.9.1 migration refunds exactly the field it empties (`available`)",
     "C10e": "C10-Q7 each optional collector setting is assigned with only its own request field present (no nesting under another field's Some arm)",
